@@ -61,3 +61,16 @@ Theorem C04_write_all_total :
 Proof.
   intros wsched s buf H. destruct (put_spec wsched s buf H) as (_ & _ & _ & [[E _]|[E _]]); [now left|now right].
 Qed.
+
+(* serde_json's reader as xt drives it, and both JSON document loops, end with
+   a verdict for every byte string (no fuel exhaustion: the model's termination
+   argument), and a successfully read value consumes input. *)
+From XtModel Require Import JsonModel JsonProofs.
+
+Theorem C04_json_value_total :
+  forall inp : bytes, lt_res (snd (json_value inp)) (length inp).
+Proof. exact json_value_total. Qed.
+
+Theorem C04_json_loops_total :
+  forall inp : bytes, snd (json_slice inp) <> JFail JOutOfFuel /\ snd (json_reader inp) <> JFail JOutOfFuel.
+Proof. exact json_loops_total. Qed.
